@@ -253,6 +253,7 @@ def run(tier, seed):
     from ..kernels.base import run_kernel
     for k in c04_fuse.KERNELS + c04_scope.KERNELS:
         chk.add_kernel(run_kernel(k, tier))
+    chk.add_lemmas(tier)
     n = 12 if tier == "quick" else 600
     res = [x for r in harness.pmap(_work, [(seed, i) for i in range(n)]) for x in r]
     m = 16 if tier == "quick" else 800
